@@ -87,6 +87,9 @@ def cases(tier, rng):
             H(msg, "flip", off, dir="down")
         H(msg, "cut", 0, dir="down"); H(msg, "cut", 30, dir="down")
     H(3, "nilerr", dir="down")
+    # (the pool size announced in the Accept message sits at payload offsets 78 - 85)
+    for off in range(76, 90):
+        H(2, "flip", off, dir="down")
     def E(value, mut, arg, arg2=0):
         edf.append({"id": 100000 + len(edf), "value": value, "mut": mut, "arg": arg, "arg2": arg2})
     for v in VALUES:
